@@ -735,11 +735,14 @@ func (k *worker) probe(r *rig.Rig, in *input, exp *expectation, body map[string]
 
 func TestCheck(t *testing.T) {
 	c := engine.Start(t, "C15")
-	c.SetRule("E1: full products {subject kind x declared type x requested type x router}, {actor kind x actor type x requested type x router}, {requested type x storage policy x scopes x router}, {client x subject kind x router}, each crossed with every <=k deviations (quick 1, thorough 2) of all other dimensions, plus {requested type x router} crossed with every <=k+1 deviations of all other dimensions (subject, declared, actor, actor type, requested, scopes, policy, audience/resource, client, storage capabilities, router); every vector = one real token-exchange POST on a clone of the state prepared by real flows, in a synctest bubble; 200 answers are probed with userinfo / introspection / refresh / rp+op ID-token verification; distinct = (oracle rule, observed outcome class)")
+	c.SetRule("E1 part exchange: full products {subject kind x declared type x requested type x router}, {actor kind x actor type x requested type x router}, {requested type x storage policy x scopes x router}, {credentials x subject kind x router}, {parameter channel x credentials x form client_id x router}, each crossed with every <=k deviations (quick 1, thorough 2) of all other dimensions, plus {requested type x router} crossed with every <=k+1 deviations of all other dimensions (subject, declared, actor, actor type, requested, scopes, policy, audience/resource, credentials, form client_id, storage capabilities, parameter channel, virtual host, router); every vector = one real token-exchange POST on a clone of the state prepared by real flows, in a synctest bubble, on a provider with a request-derived issuer (two virtual hosts); 200 answers are probed with userinfo / introspection / refresh / rp+op ID-token verification. E1 part pairs: histories of two exchanges (first, second) on a FRESH provider, full products {first subject x first host x second subject x second host x router} and {first credentials x second credentials x second subject x router} with <=k-1 deviations of the rest; both answers judged by the same model, the second additionally compared with the answer the same request gets as the first of a history; distinct = (oracle rule, observed outcome class)")
 	c.Assume("refstore is the trusted storage (liveness of exchanged token ids in ValidateTokenExchangeRequest; ID tokens are not tracked)",
+		"authenticated client = the client a valid credential (Basic secret, POSTed secret with its client_id, private_key_jwt assertion) was presented for; a form client_id beside header/assertion credentials never changes it",
+		"a client not registered for the token-exchange grant must be refused (DESIGN 2/C15 alphabet; C05) - in every parameter channel",
 		"Either: a provider-signed JWT presented under another JWT-based type name (JWT access token as id_token/jwt, ID token as access_token/jwt) - the library's JWTs carry no type marker and refstore does not look into id_token subjects",
 		"Either: provider-signed JWT naming a live token id with another subject (refstore does not pair id and subject)",
-		"Either (must-serve not demanded): subject/actor token issued to another client than the requester, client without the registered grant (C05), correct secret in the body (DESIGN 1.6), actor_token_type without actor_token",
+		"Either: ID token of a session ended through end_session (ID tokens are not tracked); opaque access token / refresh token handed out under the other virtual host (they name no issuer)",
+		"Either (must-serve not demanded): subject/actor token issued to another client than the requester, correct secret in the body (DESIGN 1.6), private_key_jwt assertion, client_id parameter beside header/assertion credentials or given twice, parameters in the URL query, actor_token_type without actor_token",
 		"act claim: checked when present; the stored token record must name the actor",
 		"handler panics are outcome class panic (C09): they satisfy must-refuse, not must-serve")
 	w := build(t, c)
@@ -756,13 +759,29 @@ func TestCheck(t *testing.T) {
 			{"subj", "declared", "requested", "router"},
 			{"actor", "atype", "requested", "router"},
 			{"requested", "policy", "scopes", "router"},
-			{"client", "subj", "router"},
+			{"auth", "subj", "router"},
+			{"chan", "auth", "formcid", "router"},
 			{"requested", "router"}, // dev(kAll) over ALL other dimensions: every pair (thorough: triple) of deviations
 		},
-		Ks: []int{k, k, k, k, kAll},
+		Ks:   []int{k, k, k, k, k, kAll},
+		Skip: func(v engine.Vec) bool { return redundant(func(n string) string { return space.Get(v, n) }) },
 		NewWorker: func(int) func(engine.Vec) engine.Result {
 			wk := newWorker(t, w)
 			return wk.run
+		},
+	})
+	kp := engine.Pick(c, 0, 1)
+	c.RunE1(engine.E1{
+		Part:  "pairs",
+		Space: pairSpace,
+		Groups: [][]string{
+			{"x.subj", "x.host", "y.subj", "y.host", "router"},
+			{"x.auth", "y.auth", "y.subj", "router"},
+		},
+		Ks: []int{kp, kp},
+		NewWorker: func(int) func(engine.Vec) engine.Result {
+			wk := newWorker(t, w)
+			return wk.runPair
 		},
 	})
 	c.Finish()
